@@ -255,6 +255,19 @@ class Exec(CallsMixin):
             self.bind_target(target, v, st, node)
             return
         if isinstance(target, ast.Attribute):
+            sa = self.opts.get("site_asserts", {}).get(ast.unparse(target) + "=")
+            if sa is not None and self.depth == 0:
+                # assertion on the value stored into <expr>.<attr> (key "<expr>.<attr>="): arg0 is the value being stored
+                from .contracts import Clause
+                cl = Clause("site_" + ast.unparse(target).replace(".", "_") + "_store", sa, "ensures")
+                bound = dict(st.vars)
+                bound["arg0"] = v
+                goal = self.eval_clause(cl, bound, st, self.entry_pre, {})
+                nm_ = ast.unparse(target) + "="
+                k_ = sum(1 for o in self.obligations if f"::site:{nm_}" in o.id)
+                g_ = self.guard_cond()
+                self.obligations.append(Obligation(f"{getattr(self, 'fn_site', self.fn_qual)}::site:{nm_}#{k_}", "assert",
+                                                   list(st.pc) + ([g_] if g_ is not None else []), goal, {"line": getattr(node, "lineno", 0), "clause": cl.name}))
             recv = self.eval(target.value, st)
             if isinstance(recv, Ref) and st.cell(recv).kind == "obj":
                 if st.cell(recv).frozen:
@@ -586,6 +599,10 @@ class Exec(CallsMixin):
         return names, roots
 
     def havoc_loop(self, st: State, names, roots, node, modifies=()):
+        from .sym import ABSENT as _ABS
+
+        def sym_ABSENT():
+            return _ABS
         for n in names:
             if n in st.vars:
                 cur = st.vars[n]
@@ -602,7 +619,9 @@ class Exec(CallsMixin):
                 elif isinstance(cur, Val) and cur.tag in ("d", "l", "st"):
                     st.vars[n] = Val(cur.tag, fresh(f"loop_{n}", {"d": DictS, "l": ListS, "st": SetS}[cur.tag]))
                 else:
-                    st.vars[n] = Val("any", fresh(f"loop_{n}", Any))
+                    hv = Val("any", fresh(f"loop_{n}", Any))
+                    st.assume(hv.e != sym_ABSENT())  # `absent` encodes a missing dict entry; it is never the value of a variable
+                    st.vars[n] = hv
         for r in roots:
             try:
                 slot = self.eval(ast.parse(r, mode="eval").body, st.fork())
